@@ -110,11 +110,16 @@ def install_flask_stub():
     flask._verif_stub = True
 
     class Blueprint:
+        routes = []     # (rule, view function), as front_end registers them
+
         def __init__(self, *args, **kwargs):
             pass
 
-        def route(self, *args, **kwargs):
-            return lambda fn: fn
+        def route(self, rule, *args, **kwargs):
+            def register(fn):
+                Blueprint.routes.append((rule, fn))
+                return fn
+            return register
 
     class Request:
         headers = {'User-Agent': 'Mozilla/5.0 (X11; Linux) SmartTV?no'}
@@ -598,14 +603,75 @@ def replay_history(acc, manifest, history):
         site.close()
 
 
+# ---- the manifest that is shipped, clicked through the routes that are registered --------
+def dispatch(url):
+    """The view werkzeug would pick: a fixed rule before a variable one."""
+    routes = sys.modules['flask'].Blueprint.routes
+    for rule, fn in routes:
+        if '<' not in rule and rule == url:
+            return fn, ()
+    for rule, fn in sorted(routes, key=lambda r: -r[0].count('/')):
+        if '<' in rule:
+            prefix = rule[:rule.index('<')]
+            rest = url[len(prefix):]
+            if url.startswith(prefix) and rest and '/' not in rest:
+                return fn, (rest,)
+    return None, ()
+
+
+def check_shipped(acc):
+    with open(os.path.join(env.REPO, 'web', 'manifest.json')) as src:
+        manifest = json.load(src)
+    for entry in manifest:
+        site = Site(manifest)
+        try:
+            path = effective_path(entry)
+            view, args = dispatch('/' + path)
+            before = len(RecordingJob.created)
+            problem = None
+            try:
+                if view is None:
+                    problem = 'no route answers /{}'.format(path)
+                else:
+                    view(*args)
+            except Exception as ex:     # noqa
+                problem = 'the request /{} raised {!r}'.format(path, ex)
+            started = [job.file_name for job in
+                       RecordingJob.created[before:]]
+            acc.case(key='shipped:' + path, nontrivial=True,
+                     labels=['shipped-manifest'],
+                     sample={'path': path, 'file_name': entry['file_name'],
+                             'started': started}
+                     if len(acc.samples) < 3 else None)
+            case = {'kind': 'shipped'}
+            if problem:
+                acc.fail('shipped:request-fails', problem, case)
+            elif not entry['file_name'] and started:
+                acc.fail('shipped:button-without-script-starts-a-job',
+                         'the shipped manifest\'s "{}" button lists no script '
+                         'but GET /{} was answered by {} and started a job '
+                         'for {}'.format(entry.get('title', path), path,
+                                         view.__name__, started), case)
+            elif entry['file_name'] and [os.path.basename(f) for f in
+                                         started] != [entry['file_name']]:
+                acc.fail('shipped:wrong-script',
+                         'GET /{} started {} instead of {}'.format(
+                             path, started, entry['file_name']), case)
+        finally:
+            site.close()
+
+
 def plan(tier, seed_value):
     per = 4000 if tier == 'thorough' else 100
     return [{'seed': seed_value * 1000 + k, 'examples': per}
-            for k in range(16)]
+            for k in range(16)] + [{'kind': 'shipped'}]
 
 
 def run_shard(spec):
     acc = Acc()
+    if spec.get('kind') == 'shipped':
+        check_shipped(acc)
+        return acc
     machine = seed(spec['seed'])(machine_class(acc))
     run_state_machine_as_test(machine, settings=settings(
         max_examples=spec['examples'], stateful_step_count=25, database=None,
@@ -616,5 +682,8 @@ def run_shard(spec):
 
 def replay(case):
     acc = Acc()
+    if case.get('kind') == 'shipped':
+        check_shipped(acc)
+        return [(f['sig'], f['what']) for f in acc.failures.values()]
     replay_history(acc, case['manifest'], [tuple(h) for h in case['history']])
     return [(f['sig'], f['what']) for f in acc.failures.values()]
